@@ -2632,6 +2632,16 @@ func (self *LockDB) wakeUpWaitLocks(lockManager *LockManager, serverProtocol Ser
 				return
 			}
 
+			if lockManager.locked > 0 && lockManager.currentLock != nil && lockManager.GetLockedLock(waitLock.command) != nil {
+				// its LockId has become a holder of the key since the request was queued (another request
+				// of that LockId was served first): asked now it would be a further level of that hold or
+				// be refused, it does not become a second hold under the same LockId
+				self.refuseWaitLock(lockManager, waitLock, serverProtocol)
+				lockManager.glock.Lock()
+				waitLock = lockManager.GetWaitLock()
+				continue
+			}
+
 			self.wakeUpWaitLock(lockManager, waitLock, serverProtocol)
 			lockManager.glock.Lock()
 			waitLock = lockManager.GetWaitLock()
@@ -2644,6 +2654,35 @@ func (self *LockDB) wakeUpWaitLocks(lockManager *LockManager, serverProtocol Ser
 			}
 		}
 		lockManager.glock.Unlock()
+	}
+}
+
+// refuseWaitLock answers a queued request LOCKED_ERROR and takes it out of the queue (called with the
+// manager's lock held, returns with it released, like wakeUpWaitLock).
+func (self *LockDB) refuseWaitLock(lockManager *LockManager, waitLock *Lock, serverProtocol ServerProtocol) {
+	holder := lockManager.GetLockedLock(waitLock.command)
+	waitLock.timeouted = true
+	if waitLock.longWaitIndex > 0 {
+		self.RemoveLongTimeOut(waitLock)
+	}
+	waitLockProtocol, waitLockCommand := waitLock.protocol, waitLock.command
+	lrcount := uint8(0)
+	if holder != nil {
+		lrcount = holder.locked
+	}
+	if lockManager.GetWaitLock() == nil {
+		lockManager.waited = false
+	}
+	lockManager.state.WaitCount--
+	lockData := lockManager.GetLockData()
+	lockManager.glock.Unlock()
+
+	if waitLockProtocol.serverProtocol == serverProtocol {
+		_ = serverProtocol.ProcessLockResultCommand(waitLockCommand, protocol.RESULT_LOCKED_ERROR, uint16(lockManager.locked), lrcount, lockData)
+		_ = serverProtocol.FreeLockCommand(waitLockCommand)
+	} else {
+		_ = waitLockProtocol.ProcessLockResultCommandLocked(waitLockCommand, protocol.RESULT_LOCKED_ERROR, uint16(lockManager.locked), lrcount, lockData)
+		_ = waitLockProtocol.FreeLockCommandLocked(waitLockCommand)
 	}
 }
 
